@@ -13,6 +13,7 @@ from pycv import harness as H
 from pycv import logic as L
 from pycv import sym
 from pycv.explore import Job
+from pycv.sym import EngineError
 from pycv.sym import SymNum
 
 from contracts import gears as G
@@ -79,29 +80,31 @@ REL_FIELDS = ("drives", "driven_by", "mating_role", "master_gear_ratio", "master
 
 
 def redeclare(c, obj, cls, tag):
-    """arbitrary earlier relation state (any declaration sequence is covered by induction over calls)"""
-    o = owner(cls)
+    """arbitrary earlier relation state (any declaration sequence is covered by induction over calls), written through the
+    element's PUBLIC setters"""
     other = G.Mate(name=f"earlier-{tag}")
     import gearpy.mechanical_objects as M
-    d = obj.__dict__
-    if f"{o}__drives" in d:
-        d[f"{o}__drives"] = other
-    if f"{o}__driven_by" in d:
-        d[f"{o}__driven_by"] = other
-    if f"{o}__mating_role" in d:
-        d[f"{o}__mating_role"] = M.MatingSlave if tag == "master" else M.MatingMaster
-    if f"{o}__master_gear_ratio" in d:
+    T = type(obj)
+
+    def has(name):
+        p_ = getattr(T, name, None)
+        return isinstance(p_, property) and p_.fset is not None
+    if has("drives"):
+        G._set(obj, "drives", other)
+    if has("driven_by"):
+        G._set(obj, "driven_by", other)
+    if has("mating_role"):
+        G._set(obj, "mating_role", M.MatingSlave if tag == "master" else M.MatingMaster)
+    if has("master_gear_ratio"):
         r = c.real(f"{tag}_old_ratio")
-        if not c.concrete:
-            c.assume(r.term > 0)
-        d[f"{o}__master_gear_ratio"] = r
-    if f"{o}__master_gear_efficiency" in d:
+        c.assume(L.gt(r, 0))
+        G._set(obj, "master_gear_ratio", r)
+    if has("master_gear_efficiency"):
         e = c.real(f"{tag}_old_eff")
-        if not c.concrete:
-            c.assume(z3.And(e.term >= 0, e.term <= 1))
-        d[f"{o}__master_gear_efficiency"] = e
-    if "_WormGear__self_locking" in d:
-        d["_WormGear__self_locking"] = True if tag == "master" else False
+        c.assume(L.And(L.ge(e, 0), L.le(e, 1)))
+        G._set(obj, "master_gear_efficiency", e)
+    if has("self_locking"):
+        G._set(obj, "self_locking", True if tag == "master" else False)
 
 
 def snapshot(obj):
@@ -119,7 +122,33 @@ def changed_keys(obj, snap):
 
 
 def getf(obj, cls, field):
-    return obj.__dict__.get(f"{owner(cls)}__{field}", None)
+    """the element's PUBLIC property (None if its class has none): nothing here depends on private attribute names"""
+    try:
+        return getattr(obj, field, None)
+    except (TypeError, ValueError, AttributeError):
+        return None
+
+
+RELATION_PROPERTIES = ("drives", "driven_by", "mating_role", "master_gear_ratio", "master_gear_efficiency", "self_locking")
+
+
+def public_state(obj):
+    """every public property of the element that is not a relation field (read through the public API)"""
+    out = {}
+    for name in dir(type(obj)):
+        if name.startswith("_") or name in RELATION_PROPERTIES or not isinstance(getattr(type(obj), name, None), property):
+            continue
+        try:
+            out[name] = getattr(obj, name)
+        except Exception as e:      # noqa: BLE001
+            out[name] = ("raises", type(e).__name__)
+    return out
+
+
+def same_public_state(obj, before):
+    now = public_state(obj)
+    return set(now) == set(before) and all(now[k] is before[k] or (not sym.is_sym(now[k]) and not sym.is_sym(before[k]) and type(now[k]) is type(before[k])
+                                                                   and now[k] == before[k]) for k in before)
 
 
 def num_ok(x, lo, hi):
@@ -146,6 +175,7 @@ def job_gear_mating(Mc, Sc, alias=False, prior="fresh"):
                 redeclare(c, s, Sc, "slave")
         eff = c.real("efficiency")
         sm, ss = snapshot(m), snapshot(s)
+        pm, ps = public_state(m), public_state(s)
         st, r = H.call(rel().add_gear_mating, master=m, slave=s, efficiency=eff)
         types_ok = Mc in GEARBASE and Sc in GEARBASE
         # incompatibilities of the property statement
@@ -191,10 +221,8 @@ def job_gear_mating(Mc, Sc, alias=False, prior="fresh"):
         O.prove("accepted:ratio>0", L.gt(ratio, 0), props=("C10", "C01"))
         e2 = getf(s, Sc, "master_gear_efficiency")
         O.prove("accepted:efficiency=argument-in-[0,1]", L.And(e2 is eff or L.eq(e2, eff), num_ok(e2, 0, 1)), props=("C10", "C02"))
-        wrote = set(changed_keys(m, sm)) | set(changed_keys(s, ss))
-        allowed = {f"{owner(Mc)}__drives", f"{owner(Mc)}__mating_role", f"{owner(Sc)}__driven_by", f"{owner(Sc)}__mating_role",
-                   f"{owner(Sc)}__master_gear_ratio", f"{owner(Sc)}__master_gear_efficiency"}
-        O.prove("accepted:modifies-only-the-relation-fields", wrote <= allowed, props=("C10",), note=f"{sorted(wrote - allowed)}")
+        O.prove("accepted:modifies-only-the-relation-fields", same_public_state(m, pm) and same_public_state(s, ps), props=("C10",),
+                note=f"changed {changed_keys(m, sm)} {changed_keys(s, ss)}")
     tag = f"{Mc}->{'itself' if alias else Sc},{prior}"
     return Job(f"relations.add_gear_mating[{tag}]", body, ("C10", "C01", "C02", "C20"), functions=[f"{MOD}.add_gear_mating"],
                meta=dict(family="relation", fn="gear", Mc=Mc, Sc=Sc))
@@ -218,6 +246,7 @@ def job_fixed_joint(Mc, Sc, alias=False, prior="fresh"):
             if not alias:
                 redeclare(c, s, Sc, "slave")
         sm, ss = snapshot(m), snapshot(s)
+        pm, ps = public_state(m), public_state(s)
         st, r = H.call(rel().add_fixed_joint, master=m, slave=s)
         ok_pair = Sc != "DCMotor" and not alias
         if st == "raise":
@@ -233,9 +262,8 @@ def job_fixed_joint(Mc, Sc, alias=False, prior="fresh"):
         O.prove("accepted:mutual-links", getf(m, Mc, "drives") is s and getf(s, Sc, "driven_by") is m, props=("C10", "C20"))
         ratio = getf(s, Sc, "master_gear_ratio")
         O.prove("accepted:ratio-exactly-1", isinstance(ratio, float) and ratio == 1.0, props=("C10", "C01"))
-        wrote = set(changed_keys(m, sm)) | set(changed_keys(s, ss))
-        allowed = {f"{owner(Mc)}__drives", f"{owner(Sc)}__driven_by", f"{owner(Sc)}__master_gear_ratio"}
-        O.prove("accepted:modifies-only-the-relation-fields", wrote <= allowed, props=("C10",), note=f"{sorted(wrote - allowed)}")
+        O.prove("accepted:modifies-only-the-relation-fields", same_public_state(m, pm) and same_public_state(s, ps), props=("C10",),
+                note=f"changed {changed_keys(m, sm)} {changed_keys(s, ss)}")
     tag = f"{Mc}->{'itself' if alias else Sc},{prior}"
     return Job(f"relations.add_fixed_joint[{tag}]", body, ("C10", "C01", "C20"), functions=[f"{MOD}.add_fixed_joint"],
                meta=dict(family="relation", fn="joint", Mc=Mc, Sc=Sc))
@@ -263,6 +291,7 @@ def job_worm_mating(Mc, Sc, pa_m=1, pa_s=1, alias=False, prior="fresh"):
                 redeclare(c, s, Sc, "slave")
         f = c.real("friction")
         sm, ss = snapshot(m), snapshot(s)
+        pm, ps = public_state(m), public_state(s)
         st, r = H.call(rel().add_worm_gear_mating, master=m, slave=s, friction_coefficient=f)
         pair_ok = {Mc, Sc} == {"WormGear", "WormWheel"} and not alias
         UF = sym.UF
@@ -305,13 +334,11 @@ def job_worm_mating(Mc, Sc, pa_m=1, pa_s=1, alias=False, prior="fresh"):
         O.prove("accepted:efficiency=documented-friction-formula", sym.term_of(e2) == eta, props=("C10", "C02"))
         O.prove("accepted:efficiency-in-[0,1]", num_ok(e2, 0, 1), props=("C10", "C02"))
         worm = m if worm_drives else s
-        sl = worm.__dict__["_WormGear__self_locking"]
+        sl = worm.self_locking
         O.prove("accepted:worm-self-locking-iff-f>cos(alpha)*tan(beta)",
                 L.Iff(L.truth(sl), ft > UF["cos"](a) * UF["tan"](bw)), props=("C10", "C13"))
-        wrote = set(changed_keys(m, sm)) | set(changed_keys(s, ss))
-        allowed = {f"{owner(Mc)}__drives", f"{owner(Mc)}__mating_role", f"{owner(Sc)}__driven_by", f"{owner(Sc)}__mating_role",
-                   f"{owner(Sc)}__master_gear_ratio", f"{owner(Sc)}__master_gear_efficiency", "_WormGear__self_locking"}
-        O.prove("accepted:modifies-only-the-relation-fields", wrote <= allowed, props=("C10",), note=f"{sorted(wrote - allowed)}")
+        O.prove("accepted:modifies-only-the-relation-fields", same_public_state(m, pm) and same_public_state(s, ps), props=("C10",),
+                note=f"changed {changed_keys(m, sm)} {changed_keys(s, ss)}")
     pas = f",alpha={G.PRESSURE_ANGLES_DEG[pa_m]}/{G.PRESSURE_ANGLES_DEG[pa_s]}" if {Mc, Sc} <= {"WormGear", "WormWheel"} else ""
     tag = f"{Mc}->{'itself' if alias else Sc}{pas},{prior}"
     return Job(f"relations.add_worm_gear_mating[{tag}]", body, ("C10", "C01", "C02", "C13", "C20"),
@@ -326,44 +353,56 @@ def job_worm_mating(Mc, Sc, pa_m=1, pa_s=1, alias=False, prior="fresh"):
 # C20: Powertrain.__init__ = the drive chain reachable from the motor
 # =====================================================================================================
 
-def _bare(cls, name):
-    """a real instance carrying only what Powertrain.__init__ reads (no constructor: its data are irrelevant here)"""
+def _bare(c, cls, name):
+    """a real element built by its REAL constructor from literal data (the data are irrelevant to Powertrain.__init__);
+    links and flags are then set through the public setters, so nothing here depends on private attribute names"""
     C = G.classes()[cls]
-    o = object.__new__(C)
-    o.__dict__["_pycv_bypassed_ctor"] = True      # see harness.call: a missing private attribute is then a harness limit
-    o.__dict__["_MechanicalObject__name"] = name
-    o.__dict__[f"{owner(cls)}__drives"] = None
-    if cls == "WormGear":
-        o.__dict__["_WormGear__self_locking"] = None
-    return o
+    J = H.lit(c, "InertiaMoment", 1, "kgm^2")
+    if cls == "DCMotor":
+        kw = dict(name=name, inertia_moment=J, no_load_speed=H.lit(c, "AngularSpeed", 100, "rad/s"), maximum_torque=H.lit(c, "Torque", 1, "Nm"))
+    elif cls == "Flywheel":
+        kw = dict(name=name, inertia_moment=J)
+    elif cls == "SpurGear":
+        kw = dict(name=name, n_teeth=20, inertia_moment=J)
+    elif cls == "HelicalGear":
+        kw = dict(name=name, n_teeth=20, inertia_moment=J, helix_angle=H.lit(c, "Angle", 20, "deg"))
+    elif cls == "WormWheel":
+        kw = dict(name=name, n_teeth=20, inertia_moment=J, helix_angle=H.lit(c, "Angle", 10, "deg"), pressure_angle=G.pressure_angle(c, 1))
+    else:
+        kw = dict(name=name, n_starts=1, inertia_moment=J, helix_angle=H.lit(c, "Angle", 10, "deg"), pressure_angle=G.pressure_angle(c, 1))
+    st, r = H.call(C, **kw)
+    if st != "ok":
+        raise EngineError(f"harness: {cls}({name!r}) with literal data was rejected by its constructor: {r!r}")
+    return r
 
 
 def job_powertrain(n, worm_mask, names):
     """chain of n elements; worm_mask: set of positions (>=1) that are WormGears; names: tuple of n strings"""
     def body(c, O):
         import gearpy.powertrain as PT
-        elems = [_bare("DCMotor", names[0])]
+        elems = [_bare(c, "DCMotor", names[0])]
         kinds = ["SpurGear", "HelicalGear", "Flywheel", "WormWheel"]
         flags = {}
         for k in range(1, n):
             if k in worm_mask:
-                e = _bare("WormGear", names[k])
+                e = _bare(c, "WormGear", names[k])
                 tri = c.real(f"sl{k}", pytype="int")           # 0 None, 1 False, 2 True (mating never declared / not / self-locking)
                 if c.concrete:
                     v = int(tri) % 3
                 else:
                     c.assume(z3.And(tri.term >= 0, tri.term <= 2))
                     v = 0 if bool(tri == 0) else (1 if bool(tri == 1) else 2)
-                e.__dict__["_WormGear__self_locking"] = [None, False, True][v]
+                if v:
+                    e.self_locking = [None, False, True][v]          # v == 0: the mating was never declared (flag still None)
                 flags[k] = v
             else:
-                e = _bare(kinds[k % 4], names[k])
+                e = _bare(c, kinds[k % 4], names[k])
             elems.append(e)
         for a, b in zip(elems, elems[1:]):
-            a.__dict__[f"{owner(type(a).__name__)}__drives"] = b
+            a.drives = b
         # an element that is NOT reachable from the motor (drives into the chain, nobody drives it)
-        stray = _bare("SpurGear", "stray")
-        stray.__dict__["_GearBase__drives"] = elems[-1]
+        stray = _bare(c, "SpurGear", "stray")
+        stray.drives = elems[-1]
         dup = len(set(names)) < n
         st, r = H.call(PT.Powertrain, elems[0])
         if dup:
@@ -378,6 +417,15 @@ def job_powertrain(n, worm_mask, names):
         O.prove("self_locking-iff-some-worm-gear-flagged-self-locking", bool(r.self_locking) == any(v == 2 for v in flags.values()),
                 props=("C20", "C13"))
         O.prove("time-axis-starts-empty", r.time == [], props=("C20", "C11"))
+        # fixed at assembly: later changes to the elements (a worm gear's flag flipped, links re-declared) change neither
+        el0, sl0 = r.elements, bool(r.self_locking)
+        for k, v in flags.items():
+            elems[k].self_locking = (v != 2)
+        if n >= 3:
+            elems[-2].drives = stray
+        O.prove("fixed-at-assembly:self_locking-unchanged-by-later-changes-to-the-worm-gears", bool(r.self_locking) == sl0, props=("C20", "C13"))
+        O.prove("fixed-at-assembly:elements-unchanged-by-later-re-declarations",
+                isinstance(r.elements, tuple) and len(r.elements) == n and all(x is y for x, y in zip(r.elements, el0)), props=("C20",))
         for attr in ("elements", "self_locking"):
             stt, e = H.call(setattr, r, attr, ())
             O.prove(f"{attr}-cannot-be-reassigned", stt == "raise", props=("C20",))
@@ -393,10 +441,10 @@ def job_powertrain_misc():
         import ast
         import inspect
         import gearpy.powertrain as PT
-        m = _bare("DCMotor", "m")
+        m = _bare(c, "DCMotor", "m")
         st, r = H.call(PT.Powertrain, m)
         O.prove("motor-drives-nothing=>construction-fails", st == "raise", props=("C20",))
-        st, r = H.call(PT.Powertrain, _bare("SpurGear", "g"))
+        st, r = H.call(PT.Powertrain, _bare(c, "SpurGear", "g"))
         O.prove("not-a-motor=>construction-fails", st == "raise", props=("C20",))
         O.prove("elements-and-self_locking-are-properties-without-setter",
                 isinstance(PT.Powertrain.elements, property) and PT.Powertrain.elements.fset is None and
